@@ -19,7 +19,7 @@ LEVEL = "exploration"
 EXHAUSTIVE = {"quick": False, "thorough": False}
 RULE = (
     "messages: random balanced markup ASTs (depth <= 3) over registered tags, inline <fg=..;bg=..;options=..> tags closed by "
-    "</> or by name, unknown tags, '<' / '>' as plain characters, newlines, non-ASCII; a case is kept only if the tag regex "
+    "</> or by name, unknown tags, '<' / '>' as plain characters, backslash-escaped tags (alone, beside and inside styled runs), newlines, non-ASCII; a case is kept only if the tag regex "
     "finds exactly the intended tags. styles: fg x bg x 2^7 attribute sets (10x10x128 quick, 18x18x128 thorough) through "
     "StyleSet at construction / add_style / format(text, style=) with and without other tags. lines: every public method "
     "whose name ends in _line or _line_raw on IO, BufferedIO, Output, SectionOutput and section-IO x ANSI/plain x tagged/"
@@ -34,7 +34,7 @@ BOUND = {
 }
 ASSUMPTIONS = [
     "nested styles do not merge: the visible style of a character is the innermost enclosing style (the formatter's documented stack behaviour)",
-    "backslash-escaped tags are not generated; inline styles use valid colour / option names only (anything else is rejected by the third-party pastel)",
+    "inline styles use valid colour / option names only (anything else is rejected by the third-party pastel)",
     "raw writing methods are documented as 'without formatting' and are not expected to indent",
 ]
 
@@ -45,10 +45,12 @@ BG = dict((k, v + 10) for k, v in FG.items())
 ATTRS = [("bold", 1, "bold"), ("dark", 2, "dark"), ("italic", 3, "italic"), ("underlined", 4, "underline"), ("blinking", 5, "blink"),
          ("inverse", 7, "reverse"), ("hidden", 8, "conceal")]
 DEFAULT_TAGS = {"info": {32}, "comment": {36}, "question": {34}, "error": {31, 1}, "b": {1}, "u": {4}, "c1": {36}, "c2": {33}}
-TAG_RE = re.compile(r"(?is)<(([a-z][a-z0-9,_=;-]*)|/([a-z][a-z0-9,_=;-]*)?)>")
+TAG_RE = re.compile(r"(?is)(?<!\\)<(([a-z][a-z0-9,_=;-]*)|/([a-z][a-z0-9,_=;-]*)?)>")
 SGR_RE = re.compile("\x1b\\[([0-9;]*)m")
 TEXTS = ["a", "word", "two words", " ", "a < b", "x>y", "<", ">", "1 <2", "<1>", "< b>", "é", "語", "line1\nline2", "\n", "tab\there", "", "a&b",
          "100%", "{}", "-", "=", "</ >", "<>", "a<", ">b"]
+# texts with backslash-escaped '<' (the documented way to write a literal tag); shown with the backslash removed
+ESC_TEXTS = ["a \\<b> c", "\\<", "if a \\< b: pass", "\\</info> x", "x \\<fg=red> y", "\\<error>", "\\<b>bold?\\</b>"]
 
 
 def strip_sgr(s):
@@ -83,7 +85,7 @@ def gen_ast(ch, depth, extra_tags):
     for _ in range(ch.randint(1, 3)):
         k = ch.randint(0, 9)
         if depth <= 0 or k < 4:
-            nodes.append(("t", ch.choice(TEXTS)))
+            nodes.append(("t", ch.choice(TEXTS) if not ch.flip(0.12) else ch.choice(ESC_TEXTS)))
         elif k < 7:
             tag = ch.choice(sorted(DEFAULT_TAGS) + sorted(extra_tags))
             codes = DEFAULT_TAGS.get(tag) or extra_tags[tag]
@@ -120,7 +122,10 @@ def render(nodes, top, out, tags):
     for n in nodes:
         if n[0] == "t":
             s += n[1]
-            out.extend((c, frozenset(top)) for c in n[1])
+            shown = n[1].replace("\\<", "<")
+            if shown != n[1] and top:
+                tags.append("ESCAPE-IN-STYLE")  # marker, removed by the caller
+            out.extend((c, frozenset(top)) for c in shown)
         else:
             _, open_, close, codes, children = n
             if codes is None:  # unknown tag: literal text, style unchanged
@@ -207,9 +212,13 @@ def run_messages(sh, lab, n):
         ast = gen_ast(ch, 3, extra_codes)
         exp, tags = [], []
         m = render(ast, frozenset(), exp, tags)
-        if [t.group(0) for t in TAG_RE.finditer(m)] != tags or "\\" in m:
+        esc_in_style = "ESCAPE-IN-STYLE" in tags
+        tags = [t for t in tags if t != "ESCAPE-IN-STYLE"]
+        if [t.group(0) for t in TAG_RE.finditer(m)] != tags:
             sh.count("messages_discarded_accidental_tag")
             continue
+        if "\\" in m:
+            sh.count("messages_with_escaped_tag")
         kept += 1
         p = "".join(c for c, _ in exp)
         case = {"kind": "message", "markup": m, "plain": p}
@@ -224,7 +233,10 @@ def run_messages(sh, lab, n):
         sh.count("messages")
         bad = [k for k, v in results.items() if v != p]
         if bad:
-            sh.violate("same-text", case, "%s = %r, intended text %r" % (bad[0], results[bad[0]], p))
+            key = None
+            if esc_in_style and bad == ["ansi-stripped"] and results["ansi-stripped"].replace("\\<", "<") == p:
+                key = "escaped-tag-inside-style-keeps-backslash"
+            sh.violate("same-text", case, "%s = %r, intended text %r" % (bad[0], results[bad[0]], p), key)
             continue
         runs = sgr_runs(a)
         if "\x1b" in strip_sgr(a):
@@ -236,8 +248,8 @@ def run_messages(sh, lab, n):
         if "\x1b" in results["plain.format"] or "\x1b" in results["ansi.remove_format"]:
             sh.violate("plain-escape", case, "escape byte in undecorated rendering")
         # undecorated outputs: plain formatter, and ANSI formatter on a stream without ANSI support
-        for deco in ("plain", "ansi"):
-            io, so, se = lab.io(deco, False)
+        for deco, ansi_stream in (("plain", False), ("ansi", False), ("plain", True)):
+            io, so, se = lab.io(deco, ansi_stream)
             for st in (io.output, io.error_output):
                 st.formatter.add_style(lab.style("s1", *extra["s1"]))
                 st.formatter.add_style(lab.style("s2", *extra["s2"]))
@@ -246,7 +258,27 @@ def run_messages(sh, lab, n):
             io.error_line(m)
             got_o, got_e = so.fetch(), se.fetch()
             if got_o != p or got_e != p + "\n":
-                sh.violate("undecorated-output", case, "%s output wrote %r / %r, intended %r" % (deco, got_o, got_e, p))
+                sh.violate("undecorated-output", case, "%s output (stream %s ANSI) wrote %r / %r, intended %r" % (deco, "claiming" if ansi_stream else "without", got_o, got_e, p))
+            if i % 4 == 0:
+                # sections of an undecorated output: rewriting and clearing degrade to appended lines, never cursor codes
+                so.clear()
+                s1, s2 = io.output.section(), io.output.section()
+                for st in (s1, s2):
+                    for k, v in extra.items():
+                        st.formatter.add_style(lab.style(k, *v))
+                s1.write_line(m)
+                s2.write_line(m)
+                s1.overwrite(m)
+                s2.clear()
+                s1.clear(1)
+                s2.write(m)
+                got = so.fetch()
+                sh.count("undecorated_section_sequences")
+                if "\x1b" in got:
+                    sh.violate("undecorated-output", dict(case, sections=True), "%s output (stream %s ANSI): section operations emitted an escape byte: %r" % (
+                        deco, "claiming" if ansi_stream else "without", got[:80]))
+                elif got.replace("\n", "").replace(p.replace("\n", ""), "") != "":
+                    sh.violate("undecorated-output", dict(case, sections=True), "%s output: sections wrote %r, which is not made of the intended text %r" % (deco, got[:120], p))
         if i < 2:
             sh.sample(case)
     if kept < n // 3:
@@ -295,6 +327,8 @@ def check_style(sh, lab, fg, bg, attrs):
         judge("add_style", f2.format("<zz>XY</>"), [("XY", want)])
         f3 = lab.AnsiFormatter(forced=True)
         judge("per-call-plain", f3.format("XY", style=lab.style(None, fg, bg, attrs)), [("XY", want)])
+        for txt in ("a < b", "<-", "1 << 2 >", "<"):
+            judge("per-call-plain", f3.format(txt, style=lab.style(None, fg, bg, attrs)), [(txt, want)])
         judge("per-call-tagged", f3.format("pre<u>MID</u>post", style=lab.style(None, fg, bg, attrs)), [("pre", want), ("MID", {4}), ("post", want)])
         # a per-call style must not leak into the next call
         judge("after-per-call", f3.format("pre<b>B</b>"), [("pre", set()), ("B", {1})])
